@@ -749,6 +749,11 @@ func LifecycleChains(tmpl []Template, nBase int) []Plan {
 	day := 24 * time.Hour
 	out = append(out, Plan{Name: "chain:epochs(two day boundaries)", Blocks: [][]int{{ix["bankSend"]}, {}, {}, {}, {}, {}},
 		Dts: []time.Duration{6 * time.Second, day, 6 * time.Second, day - 10*time.Second, 6 * time.Second, 6 * time.Second}, Tail: 2})
+	// block times with a sub-millisecond part whose fraction goes up and down (what is stored in
+	// milliseconds loses it; a node that kept the full time in memory would not)
+	us := time.Microsecond
+	out = append(out, Plan{Name: "chain:sub-millisecond block times", Blocks: [][]int{{ix["bankSend"]}, {}, {}, {}, {}, {}},
+		Dts: []time.Duration{6*time.Second + 900*us, 6*time.Second - 800*us, 6*time.Second + 700*us, 6*time.Second - 600*us, 6*time.Second + 500*us, 6*time.Second - 400*us}, Tail: 2})
 	return out
 }
 
